@@ -68,7 +68,7 @@ var raceHead = regexp.MustCompile(`(?m)^WARNING: DATA RACE`)
 var frameRe = regexp.MustCompile(`(?m)^  ([^\s(]+)\(`)
 
 // raceReports splits GORACE log files into deduplicated reports keyed by the two top frames.
-func raceReports(glob string) map[string]string {
+func RaceReports(glob string) map[string]string {
 	out := map[string]string{}
 	files, _ := filepath.Glob(glob)
 	for _, f := range files {
@@ -331,7 +331,7 @@ func Main(args []string) int {
 		r.Inconclusive("single-completion-order-per-document", nil)
 	}
 	// race reports
-	reports := raceReports(filepath.Join(scratch, "race*"))
+	reports := RaceReports(filepath.Join(scratch, "race*"))
 	r.Set("race_reports_distinct", len(reports))
 	for key, blk := range reports {
 		r.Violate("data-race:"+key, "race detector report in the generator: "+key, map[string]any{"frames": key, "report": blk})
